@@ -85,6 +85,7 @@ class State(object):
         self.n_env = 0
         self.globals = {}           # (module, name) -> value   for mutable module globals
         self.n_interf = 0
+        self.epochs = {}            # name of a havoc array constant -> number of objects allocated when it was created
 
     def copy(self):
         s = State.__new__(State)
@@ -108,6 +109,7 @@ class State(object):
         s.n_env = self.n_env
         s.globals = dict(self.globals)
         s.n_interf = self.n_interf
+        s.epochs = dict(self.epochs)
         return s
 
     # -- environments ---------------------------------------------------------------------------
